@@ -126,8 +126,34 @@ func sizes(tier string) (maxN int, diffs []int64, maxSeg int) {
 
 func TestCheck(t *testing.T) {
 	chainkit.Quiet()
+	if os.Getenv("C02_CONC_REPLAY") != "" {
+		concReplayChild(t)
+		return
+	}
 	if d := ev.Replay(); d != nil {
 		run := ev.Start("model_checking")
+		if dc, ok := d.Detail["deep"]; ok {
+			var c deepCase
+			b, _ := json.Marshal(dc)
+			json.Unmarshal(b, &c)
+			if fails, _ := newDeepWorld().run(c); len(fails) > 0 {
+				fmt.Println("REPRODUCED", fails)
+				run.Violate(ev.Violation{Scenario: d.Scenario, Oracle: d.Oracle, CaseID: d.CaseID, Detail: d.Detail})
+			}
+			run.Finish()
+		}
+		if name, ok := d.Detail["conc"].(string); ok {
+			var choices []int
+			if a, ok := d.Detail["choices"].([]interface{}); ok {
+				for _, x := range a {
+					choices = append(choices, int(x.(float64)))
+				}
+			}
+			if concConfirm(name, choices, 1) {
+				run.Violate(ev.Violation{Scenario: d.Scenario, Oracle: d.Oracle, CaseID: d.CaseID, Detail: d.Detail})
+			}
+			run.Finish()
+		}
 		var h history
 		b, _ := json.Marshal(d.Detail["history"])
 		if json.Unmarshal(b, &h) != nil {
@@ -143,6 +169,10 @@ func TestCheck(t *testing.T) {
 		run.Finish()
 	}
 	if shard, n, ok := ev.Shard(); ok {
+		if os.Getenv("C02_PART") == "extra" {
+			extraWorker(t, shard, n)
+			return
+		}
 		worker(shard, n)
 		return
 	}
@@ -152,6 +182,16 @@ func TestCheck(t *testing.T) {
 	run.Assume("small scope: trees with <= N non-genesis blocks (bounds.max_blocks), difficulties from {1,2,3}, batches of <= 3 linked blocks")
 	run.Assume("fork-choice coin (math/rand) replaced by an enumerated answer through an overlay rewrite of core/blockchain.go and core/headerchain.go")
 	res := run.RunWorkers(ev.Jobs(), nil, nil)
+	res2 := run.RunWorkers(ev.Jobs(), []string{"C02_PART=extra"}, nil)
+	extra := map[string]int64{}
+	for _, w := range res2 {
+		if w != nil {
+			for k, v := range w.Counters {
+				extra[k] += v
+			}
+		}
+	}
+	run.Set("pruned_fork_and_concurrent_families", extra)
 	var states, trans int64
 	for _, w := range res {
 		if w != nil {
@@ -160,6 +200,8 @@ func TestCheck(t *testing.T) {
 		}
 	}
 	maxN, diffs, maxSeg := sizes(run.Tier)
+	states += extra["deep_histories"] + extra["conc_schedules"]
+	trans += extra["deep_histories"]*8 + extra["conc_schedules"]*2
 	run.Set("states", states)
 	run.Set("transitions", trans)
 	run.Set("traces_validated_against_impl", trans)
@@ -257,8 +299,10 @@ func oracleOf(msg string) string {
 	switch {
 	case contains(msg, "rejected valid block"):
 		return "valid-block-rejected"
-	case contains(msg, "stored TD"):
+	case contains(msg, "stored TD"), contains(msg, "TD on disk"):
 		return "td-arithmetic"
+	case contains(msg, "valid block"):
+		return "valid-block-rejected"
 	case contains(msg, "not a heaviest"):
 		return "head-not-heaviest"
 	case contains(msg, "decreased"):
